@@ -14,7 +14,7 @@ RULE = ("random plain-data trees (depth <= 5, <= 40 leaves) over null/bool/int (
         "formats and options, and XML is decoded under every other root tag (must be rejected); out-of-domain "
         "(tree, format) pairs are skipped and counted; non-trivial = tree with >= 3 nodes in the domain of >= 2 "
         "formats; distinct = distinct tree")
-REQUIRED = ("second_decodes_after_mutation", "roundtrip:json", "roundtrip:yaml", "roundtrip:bson", "roundtrip:xml", "roundtrip:pickle",
+REQUIRED = ("documents_of_chosen_encoded_size", "trees_with_shared_late_objects", "second_decodes_after_mutation", "roundtrip:json", "roundtrip:yaml", "roundtrip:bson", "roundtrip:xml", "roundtrip:pickle",
             "cross_format_comparisons", "option_comparisons", "xml_wrong_root_rejected")
 ASSUMPTIONS = ["domains are the ones stated in the property (XML: XML 1.0 characters without CR and keys that are "
                "XML names; BSON: signed 64-bit integers, keys without NUL), plus: no lone surrogates, integers "
@@ -28,11 +28,40 @@ def generate(rng, ctx):
     return {"tree": trees.gen_tree(rng, depth=rng.choice([1, 2, 3, 4, 5]), leaves=rng.choice([5, 15, 40]), odd=odd)}
 
 
+def _magic_sizes():
+    magics = [b"\x1f\x8b", b"\x78\x9c", b"\x78\x01", b"\x78\xda", b"BZ", b"PK", b"\xfd7", b"\x28\xb5", b"\xef\xbb", b"\xff\xfe",
+              b"\xfe\xff", b'{"', b"<?", b"<c", b"--", b"%Y", b"# ", b"\x80\x04", b"\x80\x05", b"\x89P", b"MZ", b"\x7fE", b"  ", b"\n\n",
+              b"\r\n", b"\t\t", b"\x00\x01", b"\xff\xff"]
+    out = []
+    for m in magics:
+        size = m[0] + 256 * m[1]
+        if size < 18:
+            size += 65536
+        out.append(size)
+    return sorted(set(out))
+
+
+_MAGIC_SIZES = _magic_sizes()
+
+
 def directed(ctx):
     """Small boundary trees every run sees."""
     leaves = [None, True, False, 0, 1, -1, 2**63 - 1, -2**63, 0.0, 1.0, float("nan"), float("inf"), "", " ", "true", "1",
               "null", [], {}, [[]], [{}], {"k0": {}}, [None], ["", None, 0, False, 0.0]]
     yield {"tree": {}, "directed": 1}
+    # documents whose encoded size makes a binary length prefix spell the magic number of some other file type (gzip,
+    # zlib, bzip2, zip, xz, zstd, byte-order marks, '{"', '<?', pickle, PNG, ...), and every value of its first byte
+    for size in _MAGIC_SIZES + list(range(18, 275)):
+        yield {"tree": {"k": "x" * (size - 13)}, "directed": 1, "sized": size}
+    # many distinct objects, one of the late ones referenced twice by identity (pickle memo beyond 255 entries)
+    for n in (40, 150, 300):
+        items = [{"name": "srv-%d" % i, "port": 8000 + i, "tags": ["t%d" % i]} for i in range(n)]
+        yield {"tree": {"servers": items, "primary": items[-1]["name"], "backup": items[n // 2]["tags"]}, "directed": 1, "shared": n}
+    from .c02 import RELATED_STRINGS
+
+    for a, b in RELATED_STRINGS:
+        yield {"tree": {"first": a, "second": b, "both": [b, a, {"k": a}]}, "directed": 1}
+        yield {"tree": {"first": b, "second": a, "both": [a, b]}, "directed": 1}
     for v in leaves:
         yield {"tree": {"k0": v}}
         yield {"tree": {"CONFIG": v, "config": {"k0": v}}}
@@ -67,6 +96,10 @@ def _scramble(t, depth=0):
 def run(case, ctx, res):
     cc = ctx.cc
     tree = case["tree"]
+    if case.get("sized"):
+        res.count("documents_of_chosen_encoded_size")
+    if case.get("shared"):
+        res.count("trees_with_shared_late_objects")
     cfg = ctx.cache.get("cfg")
     if cfg is None:
         cfg = ctx.cache["cfg"] = cc.Schema()()
